@@ -30,6 +30,21 @@
 #include "galois/Threads.h"
 #include "galois/worklists/Chunk.h"
 
+// Serial cut-off (inputs up to this size are handled by the std:: algorithm)
+// and block size of the parallel partition; both are 1024. Only a verification
+// build (GALOIS_VERIF) may shrink them so that the parallel paths are reachable
+// on small inputs; without GALOIS_VERIF the values below are always used.
+#ifndef GALOIS_VERIF
+#undef GALOIS_PSTL_CUTOFF
+#undef GALOIS_PSTL_BLOCK
+#endif
+#ifndef GALOIS_PSTL_CUTOFF
+#define GALOIS_PSTL_CUTOFF 1024
+#endif
+#ifndef GALOIS_PSTL_BLOCK
+#define GALOIS_PSTL_BLOCK 1024
+#endif
+
 namespace galois {
 //! Parallel versions of STL library algorithms.
 // TODO: rename to gstl?
@@ -111,7 +126,7 @@ struct sort_helper {
   template <class RandomAccessIterator, class Context>
   void operator()(std::pair<RandomAccessIterator, RandomAccessIterator> bounds,
                   Context& ctx) {
-    if (std::distance(bounds.first, bounds.second) <= 1024) {
+    if (std::distance(bounds.first, bounds.second) <= GALOIS_PSTL_CUTOFF) {
       std::sort(bounds.first, bounds.second, comp);
     } else {
       typedef
@@ -165,7 +180,7 @@ struct partition_helper {
     Predicate pred;
     typename std::iterator_traits<RandomAccessIterator>::difference_type
     BlockSize() {
-      return 1024;
+      return GALOIS_PSTL_BLOCK;
     }
 
     partition_helper_state(RandomAccessIterator f, RandomAccessIterator l,
@@ -224,7 +239,7 @@ struct partition_helper {
 template <class RandomAccessIterator, class Predicate>
 RandomAccessIterator partition(RandomAccessIterator first,
                                RandomAccessIterator last, Predicate pred) {
-  if (std::distance(first, last) <= 1024)
+  if (std::distance(first, last) <= GALOIS_PSTL_CUTOFF)
     return std::partition(first, last, pred);
   typedef partition_helper<RandomAccessIterator, Predicate> P;
   typename P::partition_helper_state s(first, last, pred);
@@ -245,7 +260,7 @@ struct pair_dist {
 
 template <class RandomAccessIterator, class Compare>
 void sort(RandomAccessIterator first, RandomAccessIterator last, Compare comp) {
-  if (std::distance(first, last) <= 1024) {
+  if (std::distance(first, last) <= GALOIS_PSTL_CUTOFF) {
     std::sort(first, last, comp);
     return;
   }
@@ -317,7 +332,7 @@ OutputIt partial_sum(InputIt first, InputIt last, OutputIt d_first) {
   size_t sizeOfVector = std::distance(first, last);
 
   // only bother with parallel execution if vector is larger than some size
-  if (sizeOfVector >= 1024) {
+  if (sizeOfVector >= GALOIS_PSTL_CUTOFF) {
     const size_t numBlocks = galois::getActiveThreads();
     const size_t blockSize = (sizeOfVector + numBlocks - 1) / numBlocks;
     assert(numBlocks * blockSize >= sizeOfVector);
